@@ -218,7 +218,7 @@ def parseNumber (neg : Bool) (cs : List Char) : Option (JVal × List Char) :=
           if floatOverflows (digitsVal (ds ++ fs)) (e - fs.length) then none else some (.float, r5)
         else
           -- integers beyond u64 / below i64 become f64 in serde_json; they may overflow to infinity as well
-          if floatOverflows (digitsVal ds) 0 then none else some (.num neg (digitsVal ds), r5)
+          if f64Overflow ≤ digitsVal ds then none else some (.num neg (digitsVal ds), r5)
 
 /-- serde_json's `remaining_depth`: 128 at the top; entering an array/object decrements, reaching 0 is an error -/
 def maxDepth : Nat := 128
